@@ -65,7 +65,7 @@ impl<'de, R: Reader<'de>> Parser<R> {
                 str_end(s, i0) == str_end(s, self.read.idx() as int),
                 is_esc_status(status) <==> has_bs(s, i0, self.read.idx() as int),
             decreases s.len() - self.read.idx(),
-//@after /let mask = \(v_bs \| v_quote \| v_cc\).bitmask\(\);/
+//@after /let mask =/
             let ghost base = self.read.idx() as int;
             proof {
                 assert forall|j: int| 0 <= j < 32 implies bit32(mask, j) == !plain_char(#[trigger] s[base + j]) by {
@@ -76,7 +76,7 @@ impl<'de, R: Reader<'de>> Parser<R> {
                     assert(v_cc.lanes[j] == (v.lanes[j] <= 0x1f));
                 }
             }
-//@after /let cnt = mask.trailing_zeros\(\) as usize;/
+//@after /let cnt =/
                 proof {
                     lemma_tz32(mask);
                     assert forall|j: int| base <= j < base + cnt implies plain_char(#[trigger] s[j]) by {
@@ -89,10 +89,6 @@ impl<'de, R: Reader<'de>> Parser<R> {
                 }
 //@after /self.skip_escaped_chars\(\)\?;/ #1
                         proof { lemma_has_bs_witness(s, i0, base + cnt, self.read.idx() as int); }
-//@before /b'\\"' => return Ok\(status\),/
-                    // closing quote: the literal ends here and contains a backslash iff one was seen
-//@before /b'\\"' => return Ok\(status\),/
-                    // (has_bs over [i0, base+cnt) extends over the quote byte itself)
 //@before /self.read.eat\(LANS\)/
                 proof {
                     assert forall|j: int| base <= j < base + 32 implies plain_char(#[trigger] s[j]) by {
